@@ -3,12 +3,14 @@ Line-protocol driver for the pure numeric models.   lake env lean --run Driver/P
   snap <isBuy> <priceBits> <tickBits>        -> V <num> <den>     (exact rational result, C19)
   snapf <isBuy> <priceBits> <tickBits>       -> V <bits>          (same expression in doubles)
   index <n> {<priceBits> <shares>}*           -> V <bits>          (Float instance, C17)
+  genpath <p0> {rbits}*                       -> V {bits}*          (chunk of a fundamental path, C12)
   fcn / mm / arb ...                          -> V … orders         (Float instance of the agent formulas, C20)
 -/
 import Driver.Proto
 import PamsModel.Tick
 import PamsModel.Index
 import PamsModel.Agents
+import PamsModel.Fundamentals
 
 open Proto
 
@@ -52,6 +54,9 @@ def stepLine (line : String) : List String :=
     match runP pComps rest with
     | .ok cs => [s!"V {(Pams.Index.indexValue cs).toBits.toNat}"]
     | .error e => [s!"E {e}"]
+  | "genpath" :: p0 :: rest =>
+    let rs := rest.map fl
+    ["V" ++ String.join ((Pams.Fund.genPath (fl p0) rs).map (fun x => s!" {x.toBits.toNat}"))]
   | ["fcn", mp, fund, mpPast, wf, wc, wn, noise, margin, tw, mrt, window, cf] =>
     let elr := Pams.Agents.fcnLogReturn (fl mp) (fl fund) (fl mpPast) (fl wf) (fl wc) (fl wn) (fl noise)
       tw.toNat! mrt.toNat! (cf = "1")
